@@ -60,7 +60,10 @@ def _worker(conn, modname):
             return
         idx, desc = msg
         try:
+            _t0 = time.time()
             r = mod.run_task(desc)
+            if isinstance(r, dict):
+                r["_wall"] = time.time() - _t0
             conn.send(("ok", idx, r))
         except BaseException:
             conn.send(("err", idx, traceback.format_exc()))
